@@ -20,6 +20,11 @@ for d in sorted(glob.glob(os.path.join(V, "seeded", "*"))):
         if not last:
             continue          # run did not finish
         checks[cid] = {"caught": bool(viol), "violations_reported": len(viol), "clauses": sorted(set(sigs))[:8], "summary": last[-1][:200]}
+    readme_p = os.path.join(d, "README.md")
+    if os.path.exists(readme_p):
+        txt = open(readme_p, errors="replace").read()
+        m = re.search(r"(?is)(need[^\n]*\n.*?)(\n#|\Z)", txt)
+        meta["needs_to_manifest"] = (m.group(1) if m else txt)[:700].strip()
     meta["checks"] = checks
     meta["caught_by"] = sorted(c for c, r in checks.items() if r["caught"])
     json.dump(meta, open(mp, "w"), indent=1)
